@@ -229,42 +229,119 @@ func ruleWhoConstructs(c *Ctx, r *Report) {
 
 // ruleSCloneSwitch — two sibling functions contain a `switch <tag>` statement that must be the same in both
 // (normalised): the per-box-type handling of the two file decoders.
-func ruleSCloneSwitch(c *Ctx, r *Report, pkg, a, b, tag string) {
-	key := pkg + "." + a + "~" + b + ":switch " + tag
-	pick := func(name string) (ast.Node, *packages.Package) {
-		fn := c.LookupFunc(pkg, name)
-		if fn == nil {
-			return nil, nil
+// dispatchOn: the statement in fn that dispatches on the identifier tag: `switch tag { case … }` or the outermost
+// `if tag == "lit" { … } else if tag == "lit2" { … }` chain. Returned as a canonical list of (case labels, body).
+type dispatchCase struct {
+	labels string
+	body   []ast.Stmt
+}
+
+func dispatchOn(c *Ctx, pkg, name, tag string) ([]dispatchCase, *packages.Package, token.Pos) {
+	fn := c.LookupFunc(pkg, name)
+	if fn == nil {
+		return nil, nil, token.NoPos
+	}
+	decl, p := c.Decl(fn)
+	if decl == nil {
+		return nil, nil, token.NoPos
+	}
+	lit := func(e ast.Expr) (string, bool) {
+		be, ok := e.(*ast.BinaryExpr)
+		if !ok || be.Op != token.EQL {
+			return "", false
 		}
-		decl, p := c.Decl(fn)
-		if decl == nil {
-			return nil, nil
-		}
-		var found ast.Node
-		ast.Inspect(decl.Body, func(n ast.Node) bool {
-			if sw, ok := n.(*ast.SwitchStmt); ok && found == nil {
-				if id, ok := sw.Tag.(*ast.Ident); ok && id.Name == tag {
-					found = sw
+		for i, o := range []ast.Expr{be.X, be.Y} {
+			other := []ast.Expr{be.Y, be.X}[i]
+			if id, ok := o.(*ast.Ident); ok && id.Name == tag {
+				if bl, ok := other.(*ast.BasicLit); ok {
+					return bl.Value, true
 				}
 			}
-			return true
-		})
-		return found, p
+		}
+		return "", false
 	}
-	na, pa := pick(a)
-	nb, pb := pick(b)
-	if na == nil || nb == nil {
-		r.Undecided("S-CLONE", key, "", "the switch statement was not found in both functions")
+	var out []dispatchCase
+	var pos token.Pos
+	ast.Inspect(decl.Body, func(n ast.Node) bool {
+		if out != nil {
+			return false
+		}
+		switch x := n.(type) {
+		case *ast.SwitchStmt:
+			if id, ok := x.Tag.(*ast.Ident); ok && id.Name == tag {
+				pos = x.Pos()
+				for _, cl := range x.Body.List {
+					cc := cl.(*ast.CaseClause)
+					var labs []string
+					for _, e := range cc.List {
+						labs = append(labs, types.ExprString(e))
+					}
+					if cc.List == nil {
+						labs = []string{"default"}
+					}
+					out = append(out, dispatchCase{strings.Join(labs, ","), cc.Body})
+				}
+				return false
+			}
+		case *ast.IfStmt:
+			if _, ok := lit(x.Cond); ok && x.Init == nil {
+				pos = x.Pos()
+				var cur ast.Stmt = x
+				for cur != nil {
+					switch y := cur.(type) {
+					case *ast.IfStmt:
+						l, ok := lit(y.Cond)
+						if !ok || y.Init != nil {
+							out = nil
+							return false
+						}
+						out = append(out, dispatchCase{l, y.Body.List})
+						cur = y.Else
+					case *ast.BlockStmt:
+						out = append(out, dispatchCase{"default", y.List})
+						cur = nil
+					default:
+						cur = nil
+					}
+				}
+				return false
+			}
+		}
+		return true
+	})
+	return out, p, pos
+}
+
+func ruleSCloneSwitch(c *Ctx, r *Report, pkg, a, b, tag string) {
+	key := pkg + "." + a + "~" + b + ":switch " + tag
+	da, pa, posA := dispatchOn(c, pkg, a, tag)
+	db, pb, posB := dispatchOn(c, pkg, b, tag)
+	if da == nil || db == nil {
+		r.Undecided("S-CLONE", key, "", "the dispatch on "+tag+" (a switch, or an if/else-if chain comparing it with literals) was not found in both functions")
 		return
 	}
-	sa, ok1 := normalizedNode(c, pa, na, nil)
-	sb, ok2 := normalizedNode(c, pb, nb, nil)
+	canon := func(ds []dispatchCase, p *packages.Package) (string, bool) {
+		var sb strings.Builder
+		for _, d := range ds {
+			sb.WriteString("case " + d.labels + ": ")
+			for _, st := range d.body {
+				t, ok := normalizedNode(c, p, st, nil)
+				if !ok {
+					return "", false
+				}
+				sb.WriteString(t + "; ")
+			}
+		}
+		return sb.String(), true
+	}
+	sa, ok1 := canon(da, pa)
+	sb, ok2 := canon(db, pb)
 	if !ok1 || !ok2 {
-		r.Undecided("S-CLONE", key, c.Pos(na.Pos()), "source not available")
+		r.Undecided("S-CLONE", key, c.Pos(posA), "source not available")
 		return
 	}
 	if sa == sb {
-		r.OK("S-CLONE", key, c.Pos(na.Pos()), fmt.Sprintf("the per-box-type handling is identical in both file decoders (%d normalised characters)", len(sa)))
+		r.OK("S-CLONE", key, c.Pos(posA), fmt.Sprintf("the per-box-type handling is identical in both file decoders (%d cases, %d normalised characters)", len(da), len(sa)))
 		return
 	}
 	i := 0
@@ -282,5 +359,5 @@ func ruleSCloneSwitch(c *Ctx, r *Report, pkg, a, b, tag string) {
 	if hiB > len(sb) {
 		hiB = len(sb)
 	}
-	r.Bad("S-CLONE", key, c.Pos(nb.Pos()), fmt.Sprintf("the two file decoders handle a box type differently: %s has …%s… where %s has …%s…", a, sa[lo:hiA], b, sb[lo:hiB]))
+	r.Bad("S-CLONE", key, c.Pos(posB), fmt.Sprintf("the two file decoders handle a box type differently: %s has …%s… where %s has …%s…", a, sa[lo:hiA], b, sb[lo:hiB]))
 }
